@@ -230,7 +230,7 @@ fn deep_splits(db: &LayoutDb, seed: u64, nfiles: usize, all_offsets: bool, sink:
 		let want = xxh3_hex(&built.bytes);
 		let mut frags: Vec<Frag> = vec![Frag::Fixed(1), Frag::Fixed(2), Frag::Fixed(3), Frag::Fixed(7), Frag::Fixed(4096)];
 		for k in 0..6 {
-			frags.push(Frag::Random(seed ^ (i as u64) << 8 ^ k));
+			frags.push(if k % 2 == 0 { Frag::Random(seed ^ (i as u64) << 8 ^ k) } else { Frag::RandomIntr(seed ^ (i as u64) << 8 ^ k) });
 		}
 		let step = if all_offsets { 1 } else { 5 };
 		let mut k = (seed as usize + i) % step;
@@ -715,8 +715,10 @@ fn check_skip(beh: &Beh, built: &Built, sink: &Sink) {
 		for hash in [false, true] {
 			let c = format!("{},hash={},stream_offset", cls, hash);
 			let opts = peppi::io::slippi::de::Opts { skip_frames: true, compute_hash: hash, debug: None };
-			let mut cur = std::io::Cursor::new(&data[..]);
-			cur.set_position(k as u64);
+			// (a stream that fragments reads and can only move forward)
+			let mut cur = crate::stream::FragReader::new(&data[..], crate::stream::Frag::Fixed(1 + k % 97));
+			cur.forward_only = true;
+			cur.set_position(k);
 			match crate::util::guard(|| peppi::io::slippi::read(&mut cur, Some(&opts))) {
 				Outcome::Ok(g) => {
 					if let Some(m) = same_meta(&full, &g) {
